@@ -137,7 +137,7 @@ def run_cross(pids: List[str], jobs: int = 16, kind: str = "equiv") -> List[dict
         return pool.map(_cross_one, tasks, chunksize=4)
 
 
-def run_foreign(pid: str, pids: List[str], jobs: int = 16) -> dict:
+def run_foreign(pid: str, pids: List[str], jobs: int = 16, seed: int = 0, max_mutants: int = 120) -> dict:
     """This property's rule set against the variants of all the *other* properties: their behaviour-preserving
     variants must leave it silent (no false alarm, no loss of sight); their breaking variants may be reported or not,
     but must not crash it."""
@@ -153,6 +153,14 @@ def run_foreign(pid: str, pids: List[str], jobs: int = 16) -> dict:
             tasks.append((owner, i, pid))
     if not tasks:
         return {}
+    # every foreign behaviour-preserving variant is run; of the foreign breaking variants a deterministic sample
+    # (stride chosen from the count, offset from VERIF_SEED) keeps the thorough tier within a few minutes
+    eq = [t for t in tasks if importlib.import_module(f"pvs.props.{t[0].lower()}").MUTANTS[t[1]].get("kind") == "equiv"]
+    mu = [t for t in tasks if t not in eq]
+    if len(mu) > max_mutants:
+        stride = -(-len(mu) // max_mutants)
+        mu = mu[seed % stride :: stride]
+    tasks = eq + mu
     with Pool(min(jobs, len(tasks))) as pool:
         res = pool.map(_cross_one, tasks, chunksize=4)
     kinds = {}
